@@ -201,12 +201,16 @@ def _worker(args):
     fn, block = args
     agg = Agg()
     agg.block = block
+    t0 = time.time()
     try:
         fn(block, agg)
     except Timeout:
         agg.notes.add(f"HARNESS-ERROR block {block!r}: unexpected timeout escaping block")
     except Exception:
         agg.notes.add(f"HARNESS-ERROR block {block!r}: {traceback.format_exc()[-1500:]}")
+    if os.environ.get("MC_PROFILE"):
+        fam = block[0] if isinstance(block, (tuple, list)) and block and isinstance(block[0], str) else "block"
+        agg.extra[f"cpu_seconds_x10:{fam}"] += int((time.time() - t0) * 10)
     return agg
 
 
